@@ -256,6 +256,12 @@ def top_level_colon(rest):
             continue
         t = m.group(0)
         pos = m.end()
+        if t == '\\':
+            # explicit line joining: the logical line goes on
+            j = re.match(r'\r\n|\r|\n', rest[pos:])
+            if j:
+                pos += j.end()
+            continue
         if t == '#':
             # a comment runs to the end of the physical line (its text is not tokens: a quote in it opens no string)
             e = re.search(r'[\r\n]', rest[pos:])
